@@ -4,12 +4,14 @@ import (
 	"encoding/json"
 	"fmt"
 	"strconv"
+	"strings"
 	"sync"
 	"time"
 
 	res "github.com/jirenius/go-res"
 	"verif/harness/internal/recconn"
 	"verif/harness/internal/svc"
+	"verif/harness/internal/wire"
 )
 
 // Fixed scenarios of the qe domain (C15): things that need two callbacks in flight.
@@ -390,6 +392,74 @@ func qeRestartDuration() string {
 	}
 }
 
+// qeBurst: several query requests arrive while the group is busy with another callback, so all of
+// them wait in the group's queue. Each must be answered once, on its own reply subject, by a
+// callback that sees its own query, in arrival order.
+func qeBurst(workers int) string {
+	run, err := qeScenService("shared", workers, func() {})
+	if err != nil {
+		return "start-failed"
+	}
+	defer run.Stop()
+	var mu sync.Mutex
+	var seen []string
+	subject, ok := qeStartEvent(run, func(q res.QueryRequest) {
+		if q == nil {
+			return
+		}
+		mu.Lock()
+		seen = append(seen, q.Query())
+		mu.Unlock()
+		q.Model(map[string]string{"q": q.Query()})
+	})
+	if !ok {
+		return "no-query-subject"
+	}
+	release := make(chan struct{})
+	busy := make(chan struct{})
+	run.S.WithGroup("shared", func(*res.Service) { close(busy); <-release })
+	select {
+	case <-busy:
+	case <-time.After(2 * time.Second):
+		close(release)
+		return "group-never-busy"
+	}
+	queries := []string{"a=1", "a=2", "a=3"}
+	for i, q := range queries {
+		run.C.Deliver(subject, "_INBOX.b"+strconv.Itoa(i), []byte(`{"query":"`+q+`"}`))
+	}
+	time.Sleep(15 * time.Millisecond) // the listener has queued them behind the busy callback
+	close(release)
+	deadline := time.Now().Add(2 * time.Second)
+	for time.Now().Before(deadline) {
+		mu.Lock()
+		n := len(seen)
+		mu.Unlock()
+		if n >= len(queries) {
+			break
+		}
+		time.Sleep(time.Millisecond)
+	}
+	time.Sleep(qeDuration + 60*time.Millisecond) // let the query event expire: nothing of it may outlive the scenario
+	counts, own := "", true
+	_, pubs := run.C.Snapshot()
+	for i, q := range queries {
+		n := 0
+		for _, p := range pubs {
+			if p.Subject == "_INBOX.b"+strconv.Itoa(i) && !svc.IsPre(p.Data) {
+				n++
+				if !strings.Contains(string(p.Data), `"q":"`+q+`"`) {
+					own = false
+				}
+			}
+		}
+		counts += strconv.Itoa(n) + ","
+	}
+	mu.Lock()
+	defer mu.Unlock()
+	return fmt.Sprintf("burst replies=%s seen=%s own-answer=%s", counts, strings.Join(seen, ","), wire.Bool(own))
+}
+
 func qeScenario(a []string) string {
 	w := 2
 	if len(a) > 1 {
@@ -402,6 +472,8 @@ func qeScenario(a []string) string {
 		return qeSerial(w)
 	case "queued":
 		return qeQueued(w)
+	case "burst":
+		return qeBurst(w)
 	case "lateenq":
 		return qeLateEnqueue(w)
 	case "shutdownlive":
